@@ -26,6 +26,7 @@ let parse_event (s : string) : uev =
   | ["DL"; n; p; q] -> UDropLP (ni n, ni p, ni q)
   | ["RL"; n; p; q; q2] -> URenameLP (ni n, ni p, ni q, ni q2)
   | ["SL"; n; p; q; b] -> USetLPComp (ni n, ni p, ni q, bi b)
+  | ["ST"; n; p; tg] -> USetType (ni n, ni p, ni tg)
   | _ -> failwith ("bad event: " ^ s)
 
 let nm f us0 us1 i =
